@@ -12,6 +12,7 @@ import (
 	"time"
 
 	"github.com/nats-io/nats.go"
+	"github.com/simpleiot/simpleiot/client"
 	"github.com/simpleiot/simpleiot/data"
 	"pgregory.net/rapid"
 
@@ -56,7 +57,9 @@ var nodeTypes = []string{"t", "group", "device", "variable"}
 func New(t *rapid.T, o Opts) *Machine {
 	m := &Machine{Opts: o, Flags: map[string]bool{}, Count: map[string]int{}, used: map[string]map[int64]bool{}}
 	m.In = fix.New(t, fix.Opts{ID: RootID})
-	m.clock = int64(1800000000) * 1e9
+	// generated "fresh" timestamps lie in the recent past, so that points stamped
+	// with the wall clock (zero-time writes, the public client helpers) are newer
+	m.clock = int64(1750000000) * 1e9
 	sub, err := m.In.NC.SubscribeSync("up.>")
 	if err != nil {
 		m.In.Close()
@@ -193,12 +196,18 @@ func (m *Machine) drainUp() []*nats.Msg {
 	}
 }
 
-func samePts(a, b data.Points) bool {
-	if len(a) != len(b) {
+// samePts compares sent and rebroadcast points; a point sent without a time
+// is stamped on the way, so its time is not compared.
+func samePts(sent, got data.Points) bool {
+	if len(sent) != len(got) {
 		return false
 	}
-	for i := range a {
-		if fix.FromPoint(a[i]) != fix.FromPoint(b[i]) {
+	for i := range sent {
+		a, b := fix.FromPoint(sent[i]), fix.FromPoint(got[i])
+		if sent[i].Time.IsZero() {
+			a.TimeNs, b.TimeNs = 0, 0
+		}
+		if a != b {
 			return false
 		}
 	}
@@ -245,7 +254,7 @@ func (m *Machine) write(t *rapid.T, id, parent string, pts data.Points, wantOK b
 				subject, msg.Subject, keys(ex.must), m.History())
 		}
 		ps, err := data.PbDecodePoints(msg.Data)
-		if err != nil || !samePts(ps, pts) {
+		if err != nil || !samePts(pts, ps) {
 			t.Fatalf("write %s rebroadcast on %s with different points: sent %v got %v (%v)\nhistory:\n%s",
 				subject, msg.Subject, desc(pts), desc(ps), err, m.History())
 		}
@@ -354,6 +363,46 @@ func (m *Machine) genPoints(t *rapid.T, target string, edge bool) data.Points {
 		pts = append(pts, p)
 	}
 	return pts
+}
+
+// adopt reads back a point that the store (or a client helper) stamped with
+// the wall clock, checks it against what was sent and the time window, and
+// takes its actual time into the model.
+func (m *Machine) adopt(t *rapid.T, id, parent string, sent data.Point, t0, t1 time.Time) {
+	rp := parent
+	if rp == "" {
+		rp = "all"
+	}
+	ns, err := m.In.Get(rp, id, true)
+	if err != nil || len(ns) == 0 {
+		t.Fatalf("read of %s %s after a wall-clock stamped write: %v %v\nhistory:\n%s", id, parent, ns, err, m.History())
+	}
+	pts := ns[0].Points
+	if parent != "" {
+		pts = ns[0].EdgePoints
+	}
+	want := model.IdentOf(sent.Type, sent.Key)
+	for _, p := range pts {
+		if model.IdentOf(p.Type, p.Key) != want {
+			continue
+		}
+		if p.Value != sent.Value || p.Text != sent.Text {
+			t.Fatalf("%s %s %v: wrote value %v text %q without a time, read back %v\nhistory:\n%s", id, parent, want, sent.Value, sent.Text, fix.FromPoint(p), m.History())
+		}
+		if p.Time.Before(t0.Add(-2*time.Second)) || p.Time.After(t1.Add(2*time.Second)) {
+			t.Fatalf("%s %s %v: a point written without a time carries %v, not the time of the write (%v)\nhistory:\n%s", id, parent, want, p.Time, t0, m.History())
+		}
+		fp := fix.FromPoint(p)
+		if parent == "" {
+			m.G.NodePoints(id)[want] = fp
+		} else {
+			e := m.G.Edge(parent, id)
+			e.Points[want] = fp
+			m.refreshTomb(e)
+		}
+		return
+	}
+	t.Fatalf("%s %s: identity %v missing after an acknowledged write\nhistory:\n%s", id, parent, want, m.History())
 }
 
 // Actions returns the rapid state-machine action map; check runs after every step.
@@ -514,6 +563,83 @@ func (m *Machine) Actions(check func(t *rapid.T)) map[string]func(*rapid.T) {
 			}
 			m.write(t, parts[1], parent, b.pts, true, func() {})
 			m.sent = m.sent[:len(m.sent)-1]
+		},
+		"zeroTime": func(t *rapid.T) {
+			// points without a time are stamped by the store; reserved identities
+			// (types zt0/zt1), so that only wall-clock stamps compete with each other
+			var es []*model.Edge
+			for _, k := range m.G.Order {
+				es = append(es, m.G.Edges[k])
+			}
+			e := rapid.SampledFrom(es).Draw(t, "edge")
+			onEdge := rapid.Bool().Draw(t, "onEdge")
+			pts := data.Points{{Type: rapid.SampledFrom([]string{"zt0", "zt1"}).Draw(t, "ztype"), Key: rapid.SampledFrom([]string{"", "0", "k"}).Draw(t, "zkey"),
+				Value: float64(rapid.IntRange(-5, 5).Draw(t, "zvalue")), Text: rapid.SampledFrom([]string{"", "z"}).Draw(t, "ztext"), Origin: "zt"}}
+			id, parent := e.ID, ""
+			if onEdge {
+				parent = e.Parent
+			}
+			m.logf("zero-time point on %s %s: %s/%s=%v", id, parent, pts[0].Type, pts[0].Key, pts[0].Value)
+			m.Flags["zeroTime"] = true
+			t0 := time.Now()
+			m.write(t, id, parent, pts, true, func() {})
+			m.sent = m.sent[:len(m.sent)-1] // not re-deliverable: the stamp is the store's
+			m.adopt(t, id, parent, pts[0], t0, time.Now())
+		},
+		"helper": func(t *rapid.T) {
+			// the public client helpers (wall-clock stamps, 1 s request time-out)
+			kind := rapid.SampledFrom([]string{"mirror", "move", "delete"}).Draw(t, "helper")
+			es := m.nonRootEdges()
+			if len(es) == 0 {
+				t.Skip("no edge")
+			}
+			e := rapid.SampledFrom(es).Draw(t, "edge")
+			var err error
+			t0 := time.Now()
+			switch kind {
+			case "delete":
+				m.logf("client.DeleteNode(%s, %s)", e.ID, e.Parent)
+				err = client.DeleteNode(m.In.NC, e.ID, e.Parent, "helper")
+				if err == nil {
+					m.adopt(t, e.ID, e.Parent, data.Point{Type: data.PointTypeTombstone, Value: 1, Origin: "helper"}, t0, time.Now())
+				}
+			case "mirror", "move":
+				var cands []string
+				for _, p := range m.placed() {
+					if p != e.Parent && p != e.ID && !m.G.WouldCycle(p, e.ID) {
+						cands = append(cands, p)
+					}
+				}
+				if len(cands) == 0 {
+					t.Skip("no new parent")
+				}
+				np := rapid.SampledFrom(cands).Draw(t, "newParent")
+				if kind == "mirror" {
+					m.logf("client.MirrorNode(%s, %s)", e.ID, np)
+					err = client.MirrorNode(m.In.NC, e.ID, np, "helper")
+				} else {
+					m.logf("client.MoveNode(%s, %s -> %s)", e.ID, e.Parent, np)
+					err = client.MoveNode(m.In.NC, e.ID, e.Parent, np, "helper")
+				}
+				if err == nil {
+					if m.G.Edge(np, e.ID) == nil {
+						m.G.AddEdge(np, e.ID, e.Type)
+					}
+					m.adopt(t, e.ID, np, data.Point{Type: data.PointTypeTombstone, Value: 0, Origin: "helper"}, t0, time.Now())
+					if kind == "move" {
+						m.adopt(t, e.ID, e.Parent, data.Point{Type: data.PointTypeTombstone, Value: 1}, t0, time.Now())
+					}
+				}
+				m.Flags["mirror"] = true
+			}
+			if err != nil {
+				if strings.Contains(err.Error(), "timeout") {
+					t.Skip("helper request timed out (1 s, hard-coded)")
+				}
+				t.Fatalf("client helper %s on %s>%s failed: %v\nhistory:\n%s", kind, e.Parent, e.ID, err, m.History())
+			}
+			m.Flags["helper"] = true
+			m.drainUp()
 		},
 		"": func(t *rapid.T) {
 			m.step++
@@ -706,11 +832,11 @@ func (m *Machine) Check(t *rapid.T) {
 	if m.Opts.Maint && m.step%4 == 0 {
 		msg, err := m.In.NC.Request("admin.storeVerify", nil, fix.ReqTimeout)
 		if err != nil || len(msg.Data) != 0 {
-			t.Fatalf("admin.storeVerify: %v %q\nhistory:\n%s", err, msg, m.History())
+			t.Fatalf("admin.storeVerify: %v %v\nhistory:\n%s", err, msg, m.History())
 		}
 		msg, err = m.In.NC.Request("admin.storeMaint", nil, fix.ReqTimeout)
 		if err != nil || len(msg.Data) != 0 {
-			t.Fatalf("admin.storeMaint: %v %q\nhistory:\n%s", err, msg, m.History())
+			t.Fatalf("admin.storeMaint: %v %v\nhistory:\n%s", err, msg, m.History())
 		}
 		d2, err := fix.Dump(m.In.NC, m.G.EdgeKeys())
 		if err != nil {
